@@ -379,6 +379,48 @@ pub fn main(a: &Args) {
             }
         }
     }
+    // the filtering of ignored lints is part of every check request once the user has ignored something: texts
+    // in both languages through a JS-facing linter that has one ignored lint (what is ignored does not matter)
+    {
+        let mut texts: Vec<(String, bool)> = Vec::new();
+        let corpus = a.get("corpus").map(read_corpus).unwrap_or_default();
+        for i in 0..a.num("ignoring", 400) as usize {
+            let t = match i % 4 {
+                0 => inputs::token_soup(&mut rng),
+                1 if !corpus.is_empty() => inputs::long_tail_markdown(&corpus, &mut rng),
+                2 if !corpus.is_empty() => { let p = rng.pick(&corpus[..]).clone(); format!("{}\n\n{}", rng.pick(&corpus[..]), inputs::markdown_doc(&p, &mut rng)) }
+                _ => format!("Ths is bad.\n\n{}", inputs::token_soup(&mut rng)),
+            };
+            // every prefix of a few of them (a document while it is typed)
+            if i % 40 == 3 { let cs: Vec<char> = t.chars().collect(); for n in 1..cs.len().min(70) { texts.push((cs[..n].iter().collect(), n % 2 == 0)); } }
+            texts.push((t, i % 3 != 0));
+        }
+        let evs = crate::util::par_map(texts.len(), a.num("threads", 12) as usize, |_| {
+            let mut l = harper_wasm::Linter::new(harper_wasm::Dialect::American);
+            let t0 = "I saw teh cat.".to_string();
+            if let Some(x) = l.lint(t0.clone(), harper_wasm::Language::Plain).into_iter().next() { l.ignore_lint(t0, x); }
+            l
+        }, |l, i| {
+            let (t, md) = &texts[i];
+            let lang = if *md { harper_wasm::Language::Markdown } else { harper_wasm::Language::Plain };
+            let t0 = Instant::now();
+            let r = catch(|| l.lint(t.clone(), lang).len());
+            let mut e = json!({"ev": "Run", "src": "ignoring", "len": t.chars().count(), "front": if *md { "markdown" } else { "plain" }, "wrap": 0, "cfg": "js-linter-with-an-ignored-lint",
+                "dialect": 0, "ms": t0.elapsed().as_millis() as u64, "text": t});
+            match r {
+                Ok(n) => { e["out"] = json!("ok"); e["nlints"] = json!(n); e["loc"] = json!(""); }
+                Err(p) => {
+                    e["out"] = json!("panic"); e["nlints"] = json!(0); e["loc"] = json!(panic_loc(&p)); e["msg"] = json!(p);
+                    // the linter may be poisoned: a new one, with an ignored lint again
+                    *l = harper_wasm::Linter::new(harper_wasm::Dialect::American);
+                    let t0 = "I saw teh cat.".to_string();
+                    if let Some(x) = l.lint(t0.clone(), harper_wasm::Language::Plain).into_iter().next() { l.ignore_lint(t0, x); }
+                }
+            }
+            e
+        });
+        for e in evs { out.emit(&e); }
+    }
     // fresh threads: whatever a thread keeps between calls (thread-local scratch buffers, automata, memos) is
     // sized by the first text it sees; each of these texts is the FIRST thing a new thread checks, with the
     // merged dictionary (user words of many lengths) and letters whose case mapping changes their length
